@@ -152,6 +152,8 @@ Ctor(st0, bp, s) ==
               SetVar(SetVar(GovCore(st, s), s, "FISC_BAL", DVar(<< s, "INC" >>)), s, "T", DConst0)
          [] k = "Treasury" ->
               SetVar(SetVar(GovCore(st, s), s, "DEM_MON", DZero), s, "T", DZero)
+         [] k = "PlainGovernment" ->   \* a user's own government: a bare Sector with DEM_<good> and T = '0.'
+              SetVar(SetVar(st, s, "DEM_" \o d.good, DZero), s, "T", DConst0)
          [] k \in {"CentralBank", "GoldStandardCentralBank"} ->
               SetVar(st, s, "DEM_DEP", DSum(MAdd(M1({<< s, "F" >>}, 1), {<< s, "SUP_MON" >>}, 1)))
          [] k = "Household" ->
@@ -200,9 +202,15 @@ Weighted(st, s, assets, resid) ==
              st2 == SetVar(st1, s, "DEM_" \o a, DSum(M1({<< s, "F" >>, << s, "WGT_" \o a >>}, 1)))
          IN Weighted(st2, s, Tail(assets), MAdd(resid, {<< s, "WGT_" \o a >>}, -1))
 
+\* parameters a builder adds to a sector with AddVariable (constants or exogenous paths): atoms of the valuation
+RECURSIVE ExtraParams(_, _, _)
+ExtraParams(st, s, names) ==
+    IF names = << >> THEN st
+    ELSE ExtraParams(SetVar(st, s, Head(names), DAtom), s, Tail(names))
+
 PostCtor(st, bp, s) ==
     LET d == Sec(bp, s)
-        st1 == ExtraDemands(st, s, d.extra)
+        st1 == ExtraParams(ExtraDemands(st, s, d.extra), s, d.params)
         st2 == IF d.aw # << >>
                THEN LET w == Weighted(st1, s, d.aw, M1({}, 1))
                         c == SetVar(w.st, s, "WGT_MON", DSum(w.resid))
@@ -705,7 +713,7 @@ C04_MarketsClear == phase = "final" =>
              sup == Den(st, ids, << m, "SUP_" \o code >>, "cur", i)
              tot == FoldSet(LAMBDA t, acc : (acc + Den(st, ids, DemVarOf(bp, m, t), "cur", i)) % P,
                             0, DeclaredDemanders(st, bp, m))
-             supvars == { l \in st.vt[m] : l # "SUP_" \o code /\ l # "DEM_" \o code }
+             supvars == { l \in st.vt[m] : l # "SUP_" \o code /\ l # "DEM_" \o code /\ l \notin Range(Sec(bp, m).params) }
              alloc == FoldSet(LAMBDA l, acc : (acc + Den(st, ids, << m, l >>, "cur", i)) % P, 0, supvars)
          IN dem = tot /\ sup = dem /\ alloc = sup
 
